@@ -44,7 +44,7 @@ CONSTANTS
   SecondCheck = TRUE
   Filter = TRUE
 CONSTRAINT Hwm
-INVARIANTS AtMostOnce NoStaleInvoke QueueBound FilterConsistent
+INVARIANTS NotDone AtMostOnce NoStaleInvoke QueueBound FilterConsistent
 POSTCONDITION Accepted
 """ % (cap + 12, cap, lifecycle)
 
@@ -81,6 +81,19 @@ def run(ctx):
             ctx.tlc(SPEC, "DupFilter", cfg="MC_DupFilterHazard", label="MC_DupFilterHazard", expect=("violation",), dump_trace=False)
         return out
 
+    # Trace_Broadcast is run depth-first with the "invariant" NotDone: TLC stops at the first path that consumes the
+    # whole trace (accepted). A run that ends without reaching the end of the trace is a rejection.
+    def validate(tp, cfg, cfg_text, label):
+        r = ctx.tlc(SPEC, "Trace_Broadcast", cfg=cfg, cfg_text=cfg_text, mode="bfs", workers=1, timeout=ctx.pick(900, 3000),
+                    dump_trace=False, label=label, expect=("ok", "violation"), files={"trace.ndjson": tp}, view_queue=True)
+        if r.violated == "NotDone":
+            with lock:
+                ctx.trace_events += sum(1 for _ in open(tp))
+            return True, r
+        if r.violated not in ("Postcondition",):
+            ctx.broken("trace validation %s ended with %s" % (label, r.violated or "no verdict"))
+        return False, r
+
     # ---------------------------------------------------------------- one channel implementation
     def channel(name, pkg, gen_cfg, trace_cfg, lifecycle):
         num = ctx.pick(40, 600)
@@ -98,19 +111,15 @@ def run(ctx):
         if go.rc != 0 or not go.reports:
             return res
         tp = ctx.trace_path(go, "trace_" + name)
-        ok, tr = ctx.validate_trace(SPEC, "Trace_Broadcast", tp, cfg=trace_cfg, label=trace_cfg, timeout=ctx.pick(900, 3000))
+        ok, tr = validate(tp, trace_cfg, None, trace_cfg)
         res["traces"].append(("trace_" + name, tp, ok, tr))
         if ctx.thorough:
             cap = int(((go.reports.get("trace_" + name) or {}).get("extra") or {}).get("cap") or 0)
             if cap <= 0:
                 ctx.broken("harness did not report the queue capacity of " + name)
             tpo = ctx.trace_path(go, "trace_%s_overflow" % name)
-            r = ctx.tlc(SPEC, "Trace_Broadcast", cfg_text=_overflow_cfg(lifecycle, cap), mode="bfs", workers=1, timeout=3000,
-                        dump_trace=False, label="Trace_%s_overflow" % name, expect=("ok", "violation"),
-                        files={"trace.ndjson": tpo}, view_queue=True)
-            if r.ok:
-                ctx.trace_events += sum(1 for _ in open(tpo))
-            res["traces"].append(("trace_%s_overflow" % name, tpo, r.ok, r))
+            ok, r = validate(tpo, None, _overflow_cfg(lifecycle, cap), "Trace_%s_overflow" % name)
+            res["traces"].append(("trace_%s_overflow" % name, tpo, ok, r))
         return res
 
     def filter_alone():
